@@ -454,6 +454,45 @@ def carrier_events(ctx, ev, blobs, env, alg):
         try_key('user id bit %d (inside key)' % b, bytes(m))
     try_key('user id extended', uidbody + b' ')
     try_key('user id truncated', uidbody[:-1])
+    # --- a certification over a user ATTRIBUTE carried inside a key (independent encoder): every bit of the subpacket length, the type and
+    #     the image header - version, encoding, the twelve reserved octets - and some image bits; all of them are part of what was signed
+    if alg != 'ed25519':
+        return
+    fk = build.ForeignKey('ed25519')
+    base = build.transferable_key(fk, [b'Attribute Owner <ao@example.org>'])
+    img = bytes((i * 7) % 251 for i in range(96))
+    for hname, ihdr in (('version 1 header', b'\x10\x00\x01\x01' + bytes(12)), ('header with reserved octets in use', b'\x10\x00\x01\x01' + bytes(range(1, 13)))):
+        ua = build.sub_len(1 + len(ihdr) + len(img)) + b'\x01' + ihdr + img
+        cert, _ = build.sig_packet(fk, 0x13, 'sha256', [], [], build.subject_octets(0x13, primary=fk.pub_body, uid=ua, isuid=False), created=fk.created + 77)
+        blob0 = base + build.pkt(17, ua) + cert
+        signer = {'kb': blobs.add(blob0), 'idx': sigs.key_index(blob0, fk.fingerprint.hex())}
+        ffp = fk.fingerprint.hex()
+        nbits = (1 + 1 + len(ihdr)) * 8
+        which = [-1] + list(range(nbits)) + [nbits + 5, nbits + 300, len(ua) * 8 - 1]
+        if ctx.quick:
+            which = [-1] + sorted(ctx.rng.sample(range(nbits), 40)) + [nbits + 5, len(ua) * 8 - 1]
+        for b in which:
+            m = bytearray(ua)
+            if b >= 0:
+                m[b // 8] ^= 1 << (b % 8)
+            newua = bytes(m)
+            blob = base + build.pkt(17, newua) + cert
+            with warnings.catch_warnings():
+                warnings.simplefilter('ignore')
+                try:
+                    kk = pgpy.PGPKey.from_blob(blob)[0]
+                    uao = kk.userattributes[0]
+                    so = next(x for x in uao.__sig__)
+                    res = 'truthy' if kk.verify(uao, so) else 'falsy'
+                except Exception:
+                    res = 'raised'
+            try:
+                asubj = sigs.subj_cert(blobs, blob, ffp, newua)
+            except Exception:
+                continue
+            ev.append({'k': 'attempt', 'osig': blobs.add(cert), 'osubj': sigs.subj_cert(blobs, blob0, ffp, ua), 'signer': signer, 'asig': blobs.add(cert) if res != 'raised' else 0,
+                       'asubj': asubj, 'vkb': blobs.add(blob), 'result': res, 'case': 'attribute-cert-inside-key', 'field': 'carrier', 'expect_semantic': newua != ua,
+                       'mut': ('unmodified' if b < 0 else 'user attribute bit %d' % b) + ' (%s)' % hname})
 
 
 def run(ctx):
